@@ -21,10 +21,14 @@ def scenarios(tier, seed=0):
     q = tier == "quick"
     irrs = ["none", "smt", "int3", "sched", "net80", "const8e70"]
     iwcs = ["WP", "FC"] if q else ["WP", "FC", "SAT"]
+    if q:
+        iwcs = ["FC"]  # (the second crop replaces the second initial content in the quick tier; WP starts are covered by the net-irrigation rows)
     fields = ["none", "bunds50w20"] if q else ["none", "bunds50w20", "mulch"]
     gws = ["none", "1.5"]
     words = ["mix"] if q else ["mix", "normal", "dry"]
-    crops = ["maize.2"] if q else ["maize.2", "potato.2", "cotton.2"]
+    crops = ["maize.2", "cotton.2"] if q else ["maize.2", "potato.2", "cotton.2", "drybean.2", "quinoa.2"]
+    A.CROPS.setdefault("drybean.2", {"name": "DryBean", "scale": 0.2})
+    A.CROPS.setdefault("quinoa.2", {"name": "Quinoa", "scale": 0.2})
     for irr, iwc, field, gw, word, ck in itertools.product(irrs, iwcs, fields, gws, words, crops):
         c = A._b(crop=ck, irr=irr, iwc=iwc, field=field, gw=gw, word=word, win="w3", soil="Clay" if field.startswith("bunds") else "SandyLoam", dz="deep30" if gw != "none" else "d12")
         yield {"kind": "config", "config": c}
